@@ -95,6 +95,34 @@ func (w *c19World) execCase(c c19Case) (*c19Judged, error) {
 		w.rec.Count("runs.normal_readonly_reference", 1)
 	}
 	w.judge(j)
+	if c.hasMut() {
+		// the dry run once more with a logger that does not emit Info records (regbot -v warn): the
+		// script's own markers are lost with them, so only the state clause is judged, on the whole run
+		w.quietLog = true
+		q, err := w.run(j.Scripts, true, false)
+		w.quietLog = false
+		if err != nil {
+			return nil, err
+		}
+		w.rec.Count("runs.dry_quiet_logger", 1)
+		nm := 0
+		for _, rq := range q.Reqs {
+			if rq.Mutating() {
+				nm++
+			}
+		}
+		if nm > 0 || len(q.Content) > 0 || len(q.Touched) > 0 {
+			quiet := false
+			for _, v := range j.Viols {
+				if strings.HasPrefix(v.Key, "dry-run-") {
+					quiet = true // already reported for the ordinary logger
+				}
+			}
+			if !quiet {
+				j.Viols = append(j.Viols, c19Viol{"dry-run-mutates logger=warn", w.scrub(fmt.Sprintf("with a logger that does not emit Info records the dry run sent %d state-changing request(s) and changed layout files %v %v\ncase %s", nm, q.Content, q.Touched, c)), 0})
+			}
+		}
+	}
 	return j, nil
 }
 
@@ -313,6 +341,17 @@ func (w *c19World) judge(j *c19Judged) {
 	}
 }
 
+// c19LongWait multiplies the deadline of scripts that wait (not of scripts that are meant to run into
+// their deadline) by ten; set only while a "held up" verdict is re-examined.
+var c19LongWait bool
+
+func c19WaitScale(s c19Script) int {
+	if c19LongWait && !s.MustFail {
+		return 10 * s.TimeoutMs
+	}
+	return s.TimeoutMs
+}
+
 func (r *c19Run) markers() []string {
 	if r.Cap != nil {
 		return r.Cap.markers
@@ -497,7 +536,15 @@ func TestVerifC19(t *testing.T) {
 				}
 			}
 			if !confirmed[v.Key] {
+				// "held up" is the one verdict that rests on a wall-clock deadline (the waiting script's own
+				// timeout): it is re-examined with ten times that deadline. A slot that is really still held
+				// blocks the script whatever the deadline; a machine that was merely slow does not.
+				heldUp := strings.HasPrefix(v.Key, "following-script-held-up")
+				if heldUp {
+					c19LongWait = true
+				}
 				j2, err := w.execCase(j.Case)
+				c19LongWait = false
 				again := false
 				if err == nil {
 					for _, v2 := range j2.Viols {
@@ -505,6 +552,10 @@ func TestVerifC19(t *testing.T) {
 							again = true
 						}
 					}
+				}
+				if !again && heldUp && err == nil {
+					rec.Count("observed_not_judged.script-slow-under-load", 1)
+					continue
 				}
 				if !again {
 					rec.HarnessError("violation %q of case %s did not reproduce on an immediate re-run (%v)", v.Key, j.Case, err)
